@@ -194,7 +194,7 @@ Proof.
   destruct Hs as [x ls' st1 Htr H1 Hpos Hsub|e1 s1|x|n k v s1 r|r s1|tk r s1]; cbn [rbind] in Hparsed; try discriminate Hparsed.
   - left. intros a Hsink. symmetry in ER.
     destruct (parse_loop c (x ++ t) ls' st1) as [lr|e1 s1|x1] eqn:EL; cbn [rbind] in Hparsed; try discriminate Hparsed.
-    assert (Hsa : sink_arg c (l_pos ls') = Some a) by (apply (sink_from_at 1 a); [exact Hsink|exact Hpos]).
+    assert (Hsa : sink_arg c (l_pos ls') = Some a) by (apply (sink_from_at 1 a); [exact Hsink|exact (proj1 Hpos)]).
     destruct (trailing_sink_done _ _ _ _ _ Htr Hsa EL) as [st1' ->]. injection Hparsed as ->.
     destruct (trailing_sink_store x t ls' st1 stp s2 a Htr Hsa H1 Ht EL Hr)
       as (stb & e & gs & early' & t' & F & G1 & G2 & G3 & G4 & G5 & _ & G7).
@@ -265,7 +265,7 @@ Proof.
   destruct Hs as [x ls' st1 Htr HT Hpos Hsub|e0 s0|x|n k v s0 r|r s0|tk r s0];
     cbn [rbind] in Hparsed1, Hparsed2; try discriminate Hparsed1.
   - left. intros a Hsink.
-    assert (Hsa : sink_arg c (l_pos ls') = Some a) by (apply (sink_from_at 1 a); [exact Hsink|exact Hpos]).
+    assert (Hsa : sink_arg c (l_pos ls') = Some a) by (apply (sink_from_at 1 a); [exact Hsink|exact (proj1 Hpos)]).
     destruct (parse_loop c (x ++ t1) ls' st1) as [lr1|? ?|?] eqn:EL1; cbn [rbind] in Hparsed1; try discriminate Hparsed1.
     destruct (parse_loop c (x ++ t2) ls' st1) as [lr2|? ?|?] eqn:EL2; cbn [rbind] in Hparsed2; try discriminate Hparsed2.
     destruct (trailing_sink_done _ _ _ _ _ Htr Hsa EL1) as [l1 ->].
